@@ -963,6 +963,7 @@ class Unroll(object):
 
 # ---------------------------------------------------------------------------------------------- thread
 _CLS = [None]      # class whose method is being rewritten (methods of it are known callables)
+_QUAL = [None]     # qualified name of the function being rewritten
 _MOD = [None]      # ModuleInfo being rewritten
 _MODS = [None]     # all modules (name -> ModuleInfo)
 
@@ -1549,6 +1550,14 @@ def _temp_forward(stmts, func):
     def single_use(name, a_stmt):
         if name.startswith('_inl') and loads.get(name) == 1:
             return True
+        # a local the pinned function does not have, bound once and read once (right after): `ev = E; yield ev`
+        try:
+            from .known_funcs import LOCALS as _L
+        except ImportError:
+            _L = {}
+        pinned_ = _L.get(_QUAL[0])
+        if pinned_ is not None and name not in pinned_ and loads.get(name) == 1 and _stores(func.body).get(name) == 1:
+            return True
         if not name.startswith('_inl') and not getattr(a_stmt, '_norm', False):
             return False            # only assignments that replace a helper's `return value`
         # every other read of the name gets its value from somewhere else: from a loop binding it, or from an assignment
@@ -2006,6 +2015,7 @@ def simple_passes(modules, log):
         for (fn, cls) in _functions(m.tree):
             q = '%s.%s%s' % (m.name, (cls.name + '.') if cls is not None else '', fn.name)
             _CLS[0] = cls
+            _QUAL[0] = q
             if dealias(fn, cls, q):
                 log.append('local alias of an attribute replaced by the attribute in %s' % q)
                 changed = True
